@@ -58,6 +58,15 @@ def _tlv(tag: int, content: bytes) -> bytes:
     return bytes([tag]) + l + content
 
 
+def _deep_not(n: int) -> bytes:
+    """A SearchRequest whose filter is n nested NOT filters (beyond any recursion limit for large n)."""
+    f = _tlv(0x87, b"cn")
+    for _ in range(n):
+        f = _tlv(0xA2, f)
+    body = _tlv(4, b"") + _tlv(10, b"\x00") + _tlv(10, b"\x00") + _tlv(2, b"\x00") + _tlv(2, b"\x00") + _tlv(1, b"\x00") + f + _tlv(0x30, b"")
+    return _tlv(0x30, _tlv(2, b"\x01") + _tlv(0x63, body))
+
+
 GARBAGE = [
     ("bad-outer-tag", lambda r: _tlv(0x04, b"\x00")),
     ("unknown-op", lambda r: _tlv(0x30, _tlv(2, b"\x01") + _tlv(0x6A, b""))),
@@ -69,6 +78,7 @@ GARBAGE = [
     ("indefinite-length", lambda r: b"\x30\x80\x02\x01\x01\x00\x00"),
     ("bad-utf8", lambda r: _tlv(0x30, _tlv(2, b"\x01") + _tlv(0x77, _tlv(0x80, b"\xff\xfe")))),
     ("bad-enum", lambda r: _tlv(0x30, _tlv(2, b"\x01") + _tlv(0x63, _tlv(4, b"") + _tlv(10, b"\x09") + _tlv(10, b"\x00") + _tlv(2, b"\x00") + _tlv(2, b"\x00") + _tlv(1, b"\x00") + _tlv(0x87, b"cn") + _tlv(0x30, b"")))),
+    ("deep-not-nesting", lambda r: _deep_not(r.choice((40, 400, 1200, 3000)))),
     ("unknown-filter", lambda r: _tlv(0x30, _tlv(2, b"\x01") + _tlv(0x63, _tlv(4, b"") + _tlv(10, b"\x00") + _tlv(10, b"\x00") + _tlv(2, b"\x00") + _tlv(2, b"\x00") + _tlv(1, b"\x00") + _tlv(0x9F, b"cn") + _tlv(0x30, b"")))),
 ]
 
@@ -110,7 +120,22 @@ def decode_all(data: bytes) -> t.List[t.Any]:
 # executing one abstract call on a real session
 # ------------------------------------------------------------------------------------------------------------------
 def do_call(sess: t.Any, role: str, call: t.Dict[str, t.Any], rnd: random.Random) -> t.Dict[str, t.Any]:
-    """Returns the observation {res, ret, msgs (recv), emit: [descriptor], raw_emit, state, exc}."""
+    """Execute the call, then drain completely.
+    Returns the observation {res, ret, msgs (recv), emit: [descriptor], raw_emit, state, exc}."""
+    obs = invoke(sess, role, call, rnd)
+    raw = sess.data_to_send()
+    obs["raw_emit"] = raw
+    try:
+        obs["emit"] = [{"k": proj.kind_of(m), "id": m.message_id} for m in decode_all(raw)]
+    except Exception as e:  # noqa: BLE001
+        obs["emit"] = [{"k": "undecodable", "id": -1}]
+        obs["exc"] += f" | emitted octets undecodable: {type(e).__name__}"
+    obs["state"] = sess.state.name
+    return obs
+
+
+def invoke(sess: t.Any, role: str, call: t.Dict[str, t.Any], rnd: random.Random) -> t.Dict[str, t.Any]:
+    """Execute one abstract call on the real session without touching the outgoing buffer: {res, ret, msgs, exc}."""
     import sansldap as s
 
     op = call["op"]
@@ -171,14 +196,6 @@ def do_call(sess: t.Any, role: str, call: t.Dict[str, t.Any], rnd: random.Random
         obs["res"] = C.exc_kind(e)
         obs["exc"] = f"{type(e).__name__}: {e}"[:200]
         obs["ret"] = 0
-    raw = sess.data_to_send()
-    obs["raw_emit"] = raw
-    try:
-        obs["emit"] = [{"k": proj.kind_of(m), "id": m.message_id} for m in decode_all(raw)]
-    except Exception as e:  # noqa: BLE001
-        obs["emit"] = [{"k": "undecodable", "id": -1}]
-        obs["exc"] += f" | emitted octets undecodable: {type(e).__name__}"
-    obs["state"] = sess.state.name
     return obs
 
 
@@ -437,6 +454,9 @@ def run_prop(prop: str, tier: str, seed: int) -> int:
             from . import drain
 
             drain.run_drain(rep, wd, tier, seed)
+        from . import strace
+
+        strace.run_traces(rep, wd, tier, seed)
         return rep.finish()
     finally:
         C.cleanup(wd)
